@@ -845,6 +845,47 @@ def run_faults(payload: Tuple[Any, ...]) -> Dict[str, Any]:
                         report("permanent", "store_changed", d)
                     elif out[2] != code:
                         rep.add("c_info_permanent_error_remapped")
+    # ---- multi-page listings: a transient failure on ANY page request (not only the first) must be masked ----
+    with Ctx() as ctx:
+        def listing(first_bad: int, nfail: int, code: str, status: int) -> Tuple[Any, int]:
+            ENV.reset(0)
+            ctx.restore_s3(cfg, dict(C_STORE, **{"d/b": b"1", "d/c/x": b"2", "d/zz": b"3"}))
+            s3 = ctx.worlds[cfg].s3
+            s3.page_size = 2
+            n = [0]
+
+            def gate(req: Any) -> None:
+                if req.op == "LIST":
+                    n[0] += 1
+                    if first_bad <= n[0] < first_bad + nfail:
+                        raise make_exc(code, status, "LIST")
+
+            s3.gates, s3.after = [gate], []
+            try:
+                return ("ok", list(ctx.S[cfg].list_files("d/"))), n[0]
+            except Exception as e:  # noqa
+                return ("err", type(e).__name__), n[0]
+            finally:
+                s3.gates, s3.after = [], []
+                s3.page_size = 1000
+
+        base_l, base_n = listing(10 ** 9, 0, "", 0)
+        if base_l[0] != "ok" or base_n < 3 or len(base_l[1]) != 5:
+            raise HarnessError(f"paged listing template: {base_l} in {base_n} requests")
+        for code, status in transient:
+            for first_bad in range(1, base_n + 1):
+                for k in range(1, budget + 1):
+                    out, att = listing(first_bad, k, code, status)
+                    rep.add("fault_sequences")
+                    rep.add("paged_listing_fault_sequences")
+                    rep.nontrivial(("c", "list_files_paged", first_bad, k <= budget, out[0]))
+                    if out[0] != "ok":
+                        rep.violation({"part": "c", "method": "list_files", "request": "LIST", "fault": "transient_on_later_page",
+                                       "problem": "not_masked"}, {"config": cfg, "page_request": first_bad, "k": k, "outcome": out})
+                    elif sorted(out[1]) != sorted(base_l[1]):
+                        rep.violation({"part": "c", "method": "list_files", "request": "LIST", "fault": "transient_on_later_page",
+                                       "problem": "result_changed"},
+                                      {"config": cfg, "page_request": first_bad, "k": k, "listing": out[1], "fault_free": base_l[1]})
     # informational: a not-found read is retried like a transient error (OSError subclass)
     with Ctx() as ctx:
         _o, att, _s, _a = run_faulted(ctx, cfg, lambda S: S.read_file("zz"), "GET", 0, "", 0, "before")
